@@ -231,6 +231,9 @@ pub fn main(args: &Args) {
             }
         }
     }
+    // one Linter (an expanded grammar, tens of MB) per (dialect, selection): keep equal keys adjacent so
+    // that the small per-thread cache of `linter()` is enough (probes stay first within their key)
+    items.sort_by(|a, b| (a.dialect.as_str(), a.sel.as_str()).cmp(&(b.dialect.as_str(), b.sel.as_str())));
     out.stat(json!({"items": items.len(), "selections": sels.iter().map(|s| s.0.clone()).collect::<Vec<_>>()}));
     par_run(&mut out, &items, Linters::new, run_one);
     out.finish();
